@@ -1,4 +1,40 @@
-(* placeholder *)
-From Coq Require Import ZArith.
-Theorem C06_placeholder : True. Proof. exact I. Qed.
-Print Assumptions C06_placeholder.
+(* C06 -- unrepresentable operands are rejected, never truncated; legal ones accepted.  Statements only.
+   `encode` calls the GENERATED INSTRUCTIONS dictionary; legal32 / legal16 (Spec/Legal.v) are the documented
+   operand sets; operands32 / operands16 (Spec/Operands.v) read the operands as written. *)
+From Coq Require Import ZArith List String.
+From BB Require Import Base.PyBase Gen.Encoders Spec.RV32 Spec.RVC Spec.Operands Spec.Legal Model.Encode
+  Proofs.C06Main Proofs.C06c Proofs.C01Main Proofs.C02Main.
+Open Scope Z_scope.
+
+(* the 66 base mnemonics: accepted exactly when every operand is readable and inside its documented set,
+   for all operand spellings and ALL integers *)
+Theorem C06_exact_base :
+  forall name pos kw, In name base_mnemonics ->
+    ((exists w, encode name pos kw = Ok w) <->
+     (exists ops, operands32 name pos kw = Some ops /\ legal32 name ops = true)).
+Proof. exact exact32. Qed.
+Print Assumptions C06_exact_base.
+
+(* the 27 compressed mnemonics *)
+Theorem C06_exact_compressed :
+  forall name pos kw, In name c_mnemonics ->
+    ((exists h, encode name pos kw = Ok h) <->
+     (exists ops, operands16 name pos = Some ops /\ legal16 name ops = true)).
+Proof. exact exact16. Qed.
+Print Assumptions C06_exact_compressed.
+
+(* acceptance never truncates: what is accepted decodes to exactly the operands named (C01 / C02) *)
+Theorem C06_no_truncation_base :
+  forall name pos kw w, In name base_mnemonics -> encode name pos kw = Ok w ->
+    0 <= w < 2^32 /\
+    exists ops i, operands32 name pos kw = Some ops /\ denote32 name ops = Some i /\ decode32 w = Some i.
+Proof. exact decode_encode. Qed.
+Print Assumptions C06_no_truncation_base.
+
+Theorem C06_no_truncation_compressed :
+  forall name pos kw h, In name c_mnemonics -> encode name pos kw = Ok h ->
+    0 <= h < 2^16 /\
+    exists ops c, operands16 name pos = Some ops /\ legal16 name ops = true /\
+                  denote16 name ops = Some c /\ decode16 h = Some c.
+Proof. exact forward. Qed.
+Print Assumptions C06_no_truncation_compressed.
